@@ -194,7 +194,8 @@ class BigWorld:
     """A manager with N variables, held references with definitions."""
 
     def __init__(self, ctx, rng, n, kind='bdd', registry=None,
-                 reordering=False, samples=40, interleave=None):
+                 reordering=False, samples=40, interleave=None,
+                 shuffle=None):
         import dd.bdd as _b
         import dd.autoref as _a
         self.ctx, self.rng, self.kind = ctx, rng, kind
@@ -211,9 +212,15 @@ class BigWorld:
                      for v in p if v is not None]
         else:
             order = names[:]
-        if rng.random() < 0.3:
+        if shuffle is None:
+            shuffle = rng.random() < 0.3
+        if shuffle:
             rng.shuffle(order)
         levels = {v: i for i, v in enumerate(order)}
+        self.size_cap = 12000
+        self.hold_limit = None
+        self.pinned = []      # pool entries that are never dropped
+        self.bias = 0.0       # probability that `pick` returns a pinned one
         keys = list(levels)
         rng.shuffle(keys)   # insertion order != level order
         levels = {v: levels[v] for v in keys}
@@ -272,7 +279,13 @@ class BigWorld:
             return self.ext
         return collections.Counter(self.registry.external(self.raw))
 
+    def _small(self):
+        c = [e for e in self.pool if e not in self.pinned]
+        return self.rng.choice(c) if c else None
+
     def pick(self, max_depth=9):
+        if self.pinned and self.rng.random() < self.bias:
+            return self.rng.choice(self.pinned)
         c = [e for e in self.pool if e.fn.depth <= max_depth]
         return self.rng.choice(c or self.pool)
 
@@ -295,6 +308,12 @@ class BigWorld:
     def accept(self, site, h, fn):
         self.site = site
         self.judge(site, h, fn)
+        if self.hold_limit is not None and \
+                len(monitors.reachable(self.raw, [node_of(h)])) > \
+                self.hold_limit:
+            # judged, but too large to keep as an operand
+            self.ctx.count('large_results_judged')
+            return
         self.hold(h, fn)
 
     def check(self, site=None):
@@ -422,6 +441,8 @@ class BigWorld:
     def s_apply(self):
         sym = self.rng.choice(sorted(BINOPS))
         a, b = self.pick(), self.pick()
+        if a in self.pinned and b in self.pinned:
+            b = self._small() or b
         h = self.bdd.apply(sym, a.h, b.h)
         self.accept('apply', h, Fn(BINOPS[sym], a.fn, b.fn))
         return ('apply', sym)
@@ -435,6 +456,10 @@ class BigWorld:
 
     def s_ite(self):
         g, a, b = self.pick(), self.pick(), self.pick()
+        if self.pinned:
+            g = self._small() or g
+            if a in self.pinned and b in self.pinned:
+                b = self._small() or b
         h = self.bdd.ite(g.h, a.h, b.h)
         self.accept('ite', h, Fn('ite', g.fn, a.fn, b.fn))
         return ('ite',)
@@ -458,10 +483,35 @@ class BigWorld:
         """Quantify many variables at once; the definition quantifies
         them one small group at a time (the same function)."""
         a = self.pick(5)
-        k = self.rng.randint(4, min(self.n - 1, 12))
+        if self.rng.random() < 0.5:
+            # nearly all the variables
+            k = self.n - self.rng.randint(1, 3)
+        else:
+            k = self.rng.randint(4, self.n - 1)
         vs = self.rng.sample(self.names, k)
         fa = self.rng.random() < 0.5
-        h = self.bdd.quantify(a.h, vs, forall=fa)
+        how = self.rng.randrange(4)
+        if how == 0:
+            h = self.bdd.quantify(a.h, vs, forall=fa)
+        elif how == 1:
+            h = (self.bdd.forall if fa else self.bdd.exist)(set(vs), a.h)
+        elif how == 2:
+            # through the formula syntax: one binder with many names
+            u = node_of(a.h)
+            h = self.bdd.add_expr('{q} {names}: @{u}'.format(
+                q='\\A' if fa else '\\E', names=', '.join(vs), u=u))
+            self.ctx.count('binders_with_many_names')
+        else:
+            # apply(quantifier, cube of the variables, operand)
+            c = self.bdd.cube(dict.fromkeys(vs, True))
+            if self.kind == 'bdd':
+                self.raw.incref(c)
+            try:
+                h = self.bdd.apply('\\A' if fa else '\\E', c, a.h)
+            finally:
+                if self.kind == 'bdd':
+                    self.raw.decref(c)
+            del c
         # judge on assignments only (2^k evaluations per point are too
         # many): the result does not depend on the quantified variables,
         # and it is implied by / implies the operand
@@ -496,6 +546,16 @@ class BigWorld:
         k = self.rng.randint(1, min(6, self.n))
         olds = self.rng.sample(self.names, k)
         d = {v: self.rng.choice(self.names) for v in olds}
+        if self.hold_limit is not None:
+            # (big operand: rename single variables onto variables
+            # outside its support, which keeps its size)
+            u = node_of(a.h)
+            sup = self.raw.support(u)
+            free = [v for v in self.names if v not in sup]
+            if free and sup:
+                olds = self.rng.sample(sorted(sup), min(len(sup), 2))
+                news = self.rng.sample(free, min(len(free), len(olds)))
+                d = dict(zip(olds, news))
         h = self.bdd.let(d, a.h)
         self.accept('let-rename', h, Fn('rename', a.fn, d))
         return ('let-rename', k)
@@ -505,6 +565,11 @@ class BigWorld:
         k = self.rng.randint(1, 3)
         vs = self.rng.sample(self.names, k)
         subs = {v: self.pick(6) for v in vs}
+        if self.hold_limit is not None:
+            small = [e for e in self.pool if e not in self.pinned]
+            if not small:
+                return ('let-compose-skip',)
+            subs = {v: self.rng.choice(small) for v in vs[:1]}
         d = {v: e.h for v, e in subs.items()}
         h = self.bdd.let(d, a.h)
         self.accept('let-compose', h,
@@ -581,9 +646,27 @@ class BigWorld:
 
     # -------------------------------------------------------- lifetime
     def s_drop(self):
-        if self.pool:
-            self.drop(self.rng.randrange(len(self.pool)))
+        c = [i for i, e in enumerate(self.pool) if e not in self.pinned]
+        if c:
+            self.drop(self.rng.choice(c))
         return ('drop',)
+
+    def s_swap_back(self):
+        """One adjacent swap and the same swap again (the order and the
+        sizes return to what they were)."""
+        if self.kind != 'bdd':
+            return ('swap-skip',)
+        i = self.rng.randrange(self.n - 1)
+        before = len(self.raw)
+        self.raw.swap(i, i + 1)
+        mid = len(self.raw)
+        for e in self.pinned:
+            self.judge('swap', e.h, e.fn)
+        self.raw.swap(i, i + 1)
+        self.ctx.count('swap_calls', 2)
+        self.ctx.note('level_swapped_with_nodes_hundreds',
+                      max(before, mid) // 100)
+        return ('swap-back', i)
 
     def s_gc(self):
         before = len(self.raw)
@@ -648,6 +731,38 @@ class BigWorld:
                             (n0, len(self.raw)))
         self.ctx.count('sift_calls')
         return ('sift', before, len(self.raw))
+
+    def s_burst(self):
+        """Many operations without a collection in between (thousands of
+        computed-table entries), everything dropped and collected, then
+        another such burst that re-uses the freed node numbers for other
+        functions."""
+        import random
+        kinds = ('comparator', 'dnf', 'parity', 'threshold', 'apply',
+                 'apply', 'apply', 'ite', 'let_const')
+        saved = self.rng
+        base = len(self.pool)
+        self.s_gc()
+        length = saved.choice((6, 10, 15, 25, 40))
+        for seed in (saved.getrandbits(32), saved.getrandbits(32)):
+            self.rng = random.Random(seed)
+            try:
+                for _ in range(length):
+                    k = self.rng.choice(kinds)
+                    if len(self.pool) < 3:
+                        k = 'dnf'
+                    getattr(self, 's_' + k)()
+                self.ctx.note('table_entries_in_burst_hundreds',
+                              len(self.raw._ite_table) // 100)
+            finally:
+                self.rng = saved
+            for e in self.pool:
+                self.judge('burst', e.h, e.fn)
+            while len(self.pool) > base:
+                self.drop(len(self.pool) - 1)
+            self.s_gc()
+        self.ctx.count('bursts')
+        return ('burst',)
 
     def s_rearm(self):
         if not self.reordering:
@@ -745,10 +860,10 @@ class BigWorld:
             k = self.rng.choices(names, weights)[0]
             if len(self.pool) > 10 and k in builders:
                 k = 'drop'
-        if len(self.raw) > 12000:
+        if len(self.raw) > self.size_cap:
             # keep the manager within what a step can check quickly
-            while len(self.pool) > 2:
-                self.drop(self.rng.randrange(len(self.pool)))
+            for _ in range(len(self.pool)):
+                self.s_drop()
             k = 'gc'
             self.ctx.count('size_cap_reached')
         self.site = k
@@ -776,7 +891,7 @@ class BigWorld:
 
 MENU = dict(comparator=3, dnf=3, parity=2, threshold=2, wide=2, apply=10,
             ite=4,
-            quantify=4, quantify_many=1, let_const=2, let_rename=2,
+            quantify=4, quantify_many=1, burst=0, let_const=2, let_rename=2,
             let_compose=2, count=4, views=2, drop=8, gc=3, swap=3,
             reorder_to=1, sift=1, copy=2, dump_load=2, **{'not': 1})
 
@@ -819,17 +934,20 @@ def history(ctx, spec, menu=None):
 # per-property emphasis (weights override MENU)
 MENUS = dict(
     C01=dict(apply=16, ite=8, quantify=1, let_const=0, let_rename=0,
-             let_compose=0, count=1, views=0, copy=0, dump_load=0),
+             let_compose=0, count=1, views=0, copy=0, dump_load=0, burst=2),
     C02=dict(copy=4, dump_load=3, count=1),
-    C03=dict(quantify=12, quantify_many=4, apply=6),
+    C03=dict(quantify=12, quantify_many=8, apply=6),
+    C05=dict(threshold=6, wide=4, quantify_many=8, quantify=2, apply=6,
+             let_const=0, let_rename=0, let_compose=0, copy=0, dump_load=0,
+             views=0, count=1),
     C04=dict(let_const=6, let_rename=7, let_compose=7, quantify=1),
     C06=dict(drop=12, gc=8, swap=6, reorder_to=2, sift=2, count=1, views=0,
-             copy=0, dump_load=0),
+             copy=0, dump_load=0, burst=3),
     C07=dict(swap=10, reorder_to=4, sift=3, gc=2, copy=0, dump_load=0),
-    C08=dict(drop=12, gc=6, reorder_to=2, sift=2),
+    C08=dict(drop=12, gc=6, reorder_to=2, sift=2, burst=3),
     C09=dict(apply=12, ite=5, quantify=5, let_rename=3, let_compose=3,
              copy=2, dump_load=2),
-    C10=dict(count=14, views=2, apply=6),
+    C10=dict(count=14, views=2, apply=6, wide=8, parity=4),
     C11=dict(copy=12, dump_load=0, apply=6),
     C12=dict(dump_load=12, copy=0, apply=6),
     C18=dict(views=12, count=2, apply=6, swap=4, gc=4),
@@ -852,8 +970,103 @@ def specs(tier, seed, prop):
                                 (prop in ('C01', 'C03', 'C04', 'C08') and
                                  k % 4 == 1),
                         hashseed=k))
+    if prop in HUGE_MENUS:
+        for k in range(1 if tier == 'quick' else 6):
+            kind = 'autoref' if prop == 'C08' or k % 3 == 2 else 'bdd'
+            if prop == 'C07':
+                kind = 'bdd'
+            out.append(dict(kind='big', huge=True, prop=prop,
+                            sub=k + 100 * seed, pairs=15,
+                            steps=30 if tier == 'quick' else 80,
+                            manager=kind, hashseed=k))
     return out
 
 
 def run(ctx, spec):
+    if spec.get('huge'):
+        return huge(ctx, spec)
     return history(ctx, spec, MENUS.get(spec['prop']))
+
+
+# ------------------------------------------------------------ huge
+HUGE_MENUS = dict(
+    C01=dict(apply=10, ite=5, **{'not': 2}),
+    C03=dict(quantify=10, apply=3),
+    C04=dict(let_const=4, let_rename=5, let_compose=6, apply=2),
+    C06=dict(apply=5, drop=8, gc=6, swap_back=3, ite=2),
+    C07=dict(swap_back=10, apply=2, gc=2),
+    C08=dict(apply=6, ite=3, drop=8, gc=6),
+    C10=dict(count=10, apply=3, views=2),
+    C11=dict(copy=8, apply=3),
+    C12=dict(dump_load=6, apply=3),
+    C18=dict(views=10, apply=3, swap_back=2),
+)
+
+
+def huge(ctx, spec):
+    """Operations on one function of tens of thousands of nodes, in a
+    manager whose node numbers pass 2**16: /\\_i (x_i <=> y_i) under the
+    order x0 < x1 < ... < y0 < y1 < ... (3 * 2**pairs nodes)."""
+    rng = ctx.rng('huge', spec['sub'])
+    kind = spec.get('manager', 'bdd')
+    pairs = spec.get('pairs', 15)
+    reg = None
+    if kind == 'autoref':
+        reg = monitors.HandleRegistry()
+        reg.install()
+    try:
+        w = BigWorld(ctx, rng, 2 * pairs + 8, kind=kind, registry=reg,
+                     interleave=False, shuffle=False, samples=30)
+        w.size_cap = 10 ** 9
+        w.hold_limit = 3000
+        # sample points on which the big function is true, or nearly so
+        for _ in range(12):
+            a = {v: rng.random() < 0.5 for v in w.names}
+            for i in range(pairs):
+                a[f'y{i}'] = a[f'x{i}']
+            if rng.random() < 0.5:
+                a[f'y{rng.randrange(pairs)}'] ^= True
+            w.samples.append(a)
+        # the big function, built from the lowest pair upwards
+        with w._tmp() as t:
+            h, fn = w.bdd.true, Fn('const', True)
+            for i in reversed(range(pairs)):
+                x, fx = w._var(f'x{i}')
+                t.keep(x)
+                y, fy = w._var(f'y{i}')
+                t.keep(y)
+                e = t.keep(w.bdd.apply('<=>', x, y))
+                h = t.keep(w.bdd.apply('and', e, h))
+                fn = Fn('and', Fn('equiv', fx, fy), fn)
+            w.judge('apply', h, fn)
+            w.hold(h, fn)
+        del h, x, y, e, t
+        w.pinned.append(w.pool[0])
+        w.bias = 0.5
+        ctx.note('huge_nodes_thousands', len(w.raw) // 1000)
+        ctx.counters['max_node_number'] = max(
+            ctx.counters['max_node_number'], max(w.raw._succ))
+        if max(w.raw._succ) < 2 ** 16:
+            raise Violation('huge', 'harness-built-too-small-a-manager',
+                            len(w.raw))
+        w.check('build')
+        menu = dict(dnf=3, threshold=2, parity=1, drop=4, gc=2)
+        menu.update(HUGE_MENUS.get(spec['prop'], {}))
+        for k in range(spec['steps']):
+            ok, _ = ctx.guard(w.site, w.step, menu, case=dict(
+                spec=spec, step=k,
+                tail=[list(map(str, d)) for d in w.log[-8:]]))
+            if not ok:
+                return
+            ctx.case(True, 'huge', spec['sub'], k)
+        ctx.counters['huge_histories'] += 1
+        ctx.counters['max_node_number'] = max(
+            ctx.counters['max_node_number'], max(w.raw._succ))
+        ctx.sample(dict(kind='huge', pairs=pairs, manager=kind,
+                        nodes=len(w.raw), max_node=max(w.raw._succ),
+                        last_steps=[list(map(str, d)) for d in w.log[-5:]]))
+        w.pinned.clear()
+        ctx.guard('shutdown', w.finish)
+    finally:
+        if reg:
+            reg.uninstall()
